@@ -943,6 +943,38 @@ def run_patch(desc, ctx):
             ctx.check(good, "bernstein", "patch", "patch_changed_when_an_earlier_result_was_modified_in_place",
                       "after an exported surface / an evaluated corner was modified in place, evaluate(%r, %r) differs from the tensor Bernstein sum of "
                       "the original control points (by %.3g / %.3g, scale %.3g)" % (uf, vf, d_in, d_out, M), u=uf, v=vf, degrees=[m, n])
+    # history: a control point of this patch object is moved (assignment and in-place "+=" on patch.pts[i][j]) after the patch has been
+    # evaluated and exported: the patch must now be the Bernstein polynomial of its CURRENT control points, also at parameters already used
+    if dim == 3 and convs and desc["seed"] % 3 == 0:
+        ctx.cls("patch:history:control_point_edited_after_evaluation")
+        try:
+            i_, j_ = rng.randrange(len(bp.pts)), rng.randrange(len(bp.pts[0]))
+            shift = np.array([0.75, -1.25, 2.5]) * max(M, 1.0)
+            if rng.random() < 0.5:
+                bp.pts[i_][j_] = type(bp.pts[i_][j_])(np.asarray(bp.pts[i_][j_], float) + shift)
+            else:
+                bp.pts[i_][j_] = type(bp.pts[i_][j_])(np.asarray(bp.pts[i_][j_], float))
+                bp.pts[i_][j_] += shift
+            net2 = [[[float(c) for c in np.asarray(p, float)] for p in row] for row in bp.pts]
+            Nf2 = [R.frac_points(row) for row in net2]
+            M2 = max(float(np.max(np.abs(np.array(net2, float)))), 1e-300)
+        except Exception as e:
+            ctx.note("patch_edit_failed:" + type(e).__name__)
+            Nf2 = None
+        if Nf2 is not None:
+            for (uf, vf) in ((0.0, 0.0), (1.0, 1.0), (0.0, 1.0), (1.0, 0.0), (0.5, 0.25), (rng.random(), rng.random())):
+                ok, val = ctx.call("patch.evaluate:after_control_point_edit", bp.evaluate, uf, vf, monitor="bernstein")
+                a = _vec(ctx, val, dim, "bernstein", "patch")
+                if a is None:
+                    continue
+                d_in = R.max_abs_diff(R.bernstein_patch(Nf2, vf, uf), a)
+                d_out = R.max_abs_diff(R.bernstein_patch(Nf2, uf, vf), a)
+                good = ("u_inner" in convs and d_in <= 1e-12 * M2) or ("u_outer" in convs and d_out <= 1e-12 * M2)
+                ctx.check(good, "bernstein", "patch", "patch_does_not_follow_its_edited_control_points",
+                          "after a control point of the patch was moved, evaluate(%r, %r) is not the tensor Bernstein sum of the current control points "
+                          "(differences %.3g / %.3g, scale %.3g)" % (uf, vf, d_in, d_out, M2), u=uf, v=vf, degrees=[m, n])
+            for (n1, n2) in pairs[:1]:
+                _check_surface_export(ctx, bp, Nf2, M2, n1, n2, convs)
     if desc.get("sample"):
         ctx.sample({"control_net_degrees": [m, n], "first_row": net[0][:3], "checked": "evaluate vs exact tensor Bernstein sum, corners, hull, "
                     "rejection; as_surface%s" % (pairs,), "largest |diff|/scale": worst, "as_surface": exported if dim == 3 else None})
